@@ -2930,10 +2930,16 @@ def s_lone( ctx ):
         # the handler renders an error reply ( <x>.input = ... produce( ... ) as a statement of its own body ) and hands the exception on only under
         # a condition ( no target object was found: nobody to answer )
         def answers_( h ):
-            renders = any( isinstance( b, ast.Assign ) and ( dotted( b.targets[0] ) or '' ).endswith( '.input' )
-                           and any( isinstance( c_, ast.Call ) and isinstance( c_.func, ast.Attribute ) and c_.func.attr == 'produce' for c_ in ast.walk( b.value )) for b in h.body )
+            # a reply is rendered on every path through the handler that does not leave it by the conditional raise: either a statement of
+            # the handler body renders it ( <x>.input = ... .produce( ... )), or the handler hands what is known of the request to the target
+            # ( <target>.request( <placeholder> )) inside a try of its own whose catch-all renders it
+            def renders_( stmts ):
+                return any( isinstance( b, ast.Assign ) and ( dotted( b.targets[0] ) or '' ).endswith( '.input' )
+                            and any( isinstance( c_, ast.Call ) and isinstance( c_.func, ast.Attribute ) and c_.func.attr == 'produce' for c_ in ast.walk( b.value )) for b in stmts )
+            retry = [ t_ for t_ in h.body if isinstance( t_, ast.Try ) and any( isinstance( c_, ast.Call ) and isinstance( c_.func, ast.Attribute ) and c_.func.attr == 'request' for b_ in t_.body for c_ in ast.walk( b_ ))
+                      and any(( h2.type is None or dotted( h2.type ) in ( 'Exception', 'BaseException' )) and renders_( h2.body ) and not any( isinstance( x_, ast.Raise ) for x_ in ast.walk( h2 )) for h2 in t_.handlers ) ]
             bare = any( isinstance( b, ast.Raise ) for b in h.body )
-            return renders and not bare
+            return ( renders_( h.body ) or bool( retry )) and not bare
         conv = [ t for t in tries for h in t.handlers if ( h.type is None or dotted( h.type ) in ( 'Exception', 'BaseException' )) and answers_( h ) ]
         if conv:
             res.ok( src, c, 'a lone request the target cannot serve is answered with a CIP error reply' )
